@@ -193,8 +193,83 @@ def c03():
     }
 
 
+def c04():
+    import suite_forms
+    return {
+        "props_file": "Props/C04.v",
+        "theorems": ["C04_release_safe", "C04_no_release_when_disabled", "C04_source_tie",
+                     "C04_chunks", "C04_run_chunks", "C04_packed_form", "C04_function",
+                     "C04_release_example"],
+        "model_files": ["Model/Obs.v", "Model/Mem.v"],
+        "suites": [suite_forms.suite_forms, suite_forms.suite_mmap],
+        "search": suite_forms.search_c04,
+        "replay": suite_forms.replay_c04,
+        "level": "proof",
+        "rule": "forms: one row sequence supplied as {packed,unpacked} x {ndarray,list,.npy path} x "
+                "integer dtypes, cut into 1-4 consecutive fit calls, and in another process with "
+                "another hash seed: all equal and equal to the model on the decoded sequence; "
+                "mmap: .npy files on both sides of the 2 MiB release granularity, several row "
+                "widths/item sizes, consecutive files on one tree; every madvise(DONTNEED) argument "
+                "compared with Model/Mem.v and checked against file bounds and read cursor",
+        "trusted": HIST_TRUST + ["kernel behaviour of madvise(MADV_DONTNEED) (the theorem bounds the "
+                                 "arguments only)", "np.load(mmap_mode='r') maps the file from offset 0 "
+                                 "(mapping base = data - offset; observed through _madvise_sequential)"],
+        "assumptions": ["from_bb_input's int(pagesizex / cols) equals P / cols when cols | P (tied by "
+                        "the mmap suite, not by the translator)"],
+    }
+
+
+def c07():
+    import suite_hist
+    import suite_c07
+    return {
+        "props_file": "Props/C07.v",
+        "theorems": ["C07_insert_refines", "C07_fit_refines", "C07_stored_is_recomputed"],
+        "model_files": ["Model/Obs.v", "Model/ObsBits.v", "Model/Spec.v"],
+        "suites": [suite_hist.suite_tree_walk, suite_hist.suite_exhaustive,
+                   suite_c07.suite_dissim_choice, suite_c07.suite_legacy],
+        "search": suite_c07.search_c07,
+        "replay": suite_c07.replay_c07,
+        "level": "proof",
+        "rule": HIST_RULE + "; split-seed choice on node contents with odd and even entry counts "
+                "and majority ties; legacy uint8/int64 variants on 2048-bit inputs (differential "
+                "testing, not proof)",
+        "trusted": HIST_TRUST + ["bundled legacy implementations are compared by differential "
+                                 "testing only (no theorem about bblean/_legacy)"],
+        "assumptions": ["the reference procedure (Model/Spec.v) compares float64 Tanimoto values; "
+                        "faithfulness to exact rational comparison is a separate lemma (OrderFacts) "
+                        "for feature counts < 2^25"],
+    }
+
+
+def c17():
+    import suite_config
+    return {
+        "props_file": "Props/C17.v",
+        "theorems": ["C17_accept_iff", "C17_same_behaviour", "C17_frame", "C17_reset",
+                     "C17_reset_behaves_fresh", "C17_nonvacuous"],
+        "model_files": ["Model/ObsCfg.v"],
+        "suites": [suite_config.suite_config],
+        "search": suite_config.search_c17,
+        "replay": suite_config.replay_c17,
+        "level": "proof",
+        "rule": "random sequences constructor / set_merge(subset of arguments) / property setters over "
+                "all criterion names (+ an unknown one), merge-function objects, tolerances; observed "
+                "after every call: criterion, tolerance, threshold, branching factor, repr, and "
+                "accept/reject on probe arguments; non-trivial = distinct sequence with >= 1 call "
+                "after construction",
+        "trusted": COMMON_TRUST + ["hand-written Model/Config.v tied to BitBirch.__init__/set_merge by "
+                                   "differential execution only"],
+        "assumptions": ["the legacy module-global set_merge is modelled only as 'refuses instance-level "
+                        "changes'"],
+    }
+
+
 SPECS = {
     "C01": c01,
+    "C04": c04,
+    "C07": c07,
+    "C17": c17,
     "C02": c02,
     "C03": c03,
     "C08": c08,
